@@ -21,3 +21,14 @@ Definition ex_steps' : list (list frame * bool) := [(ex_fs, false)].
 
 (* what is compared of an output frame: header fields and pixel bit patterns *)
 Definition obs (o : oframe) := (o_id o, o_bytes o, o_shape o, map f32_bits (o_px o)).
+
+(* a history of three acquisitions on one filter instance:
+     1. window 2 on the five frames above -- ends INSIDE a window (one trailing frame is flushed),
+     2. window 1: the source bypasses the filter (source.c: enable_filter = k > 1), its thread sees no frame,
+     3. window 3 on four frames whose ids start again at 0, two packets. *)
+Definition ex_fs3 : list frame := [ex_frame 0 3 30; ex_frame 1 6 60; ex_frame 2 9 90; ex_frame 3 1 2].
+Definition ex_env1 : env := mkEnv 1 1024 (f32_of_bits 1061109567).
+Definition ex_env3 : env := mkEnv 3 1024 (f32_of_bits 1061109567).
+Definition ex_steps3 : list (list frame * bool) :=
+  [([ex_frame 0 3 30], false); ([ex_frame 1 6 60; ex_frame 2 9 90; ex_frame 3 1 2], false)].
+Definition ex_acqs : list acquisition := [(ex_env, ex_steps); (ex_env1, [([], false)]); (ex_env3, ex_steps3)].
